@@ -113,9 +113,10 @@ func loadEngine(repo string) (*Engine, error) {
 		for _, k := range names {
 			tags.id(byName[k])
 		}
-		for _, k := range []string{"errorString", "fmtError", "context.backgroundCtx", "context.cancelCtx"} {
+		for _, k := range []string{"errorString", "fmtError", "context.background", "context.cancelCtx"} {
 			pseudoTag(k)
 		}
+		tags.frozen = true
 	}
 	if t := e.lookupType("os", "LinkError"); t != nil {
 		errPtrTags = append(errPtrTags, tagTerm(types.NewPointer(t)))
@@ -270,8 +271,7 @@ func (e *Engine) errorType() types.Type { return types.Universe.Lookup("error").
 func (e *Engine) implTerm(tag *Term, iface types.Type) *Term {
 	if tag.IsInt() {
 		id := int(tag.Int.Int64())
-		if id >= 1 && id <= len(tags.types) {
-			t := tags.types[id-1]
+		if t := tags.typeOf(id); t != nil {
 			if pt, pseudo := t.(*pseudoType); !pseudo {
 				return BoolLit(types.Implements(t, iface.Underlying().(*types.Interface)))
 			} else {
@@ -319,10 +319,7 @@ func pseudoTag(name string) *Term {
 	if id, ok := tags.ids[k]; ok {
 		return IntLit(int64(id))
 	}
-	tags.types = append(tags.types, pseudo(k))
-	id := len(tags.types)
-	tags.ids[k] = id
-	return IntLit(int64(id))
+	return IntLit(int64(tags.register(k, pseudo(k))))
 }
 
 // globalValue gives the (assumed immutable) value of a package-level variable.
